@@ -53,14 +53,8 @@ def run(ctx, rep, tier):
         q = CQ + "DetailedPlacement::" + fld
         ok = dict(BASE_WRITERS)
         ok.update(EXTRA_WRITERS.get(fld, {}))
-        ws = field_writes(ctx, q)
-        bad = [(f, x, u) for f, x, u in ws if f.short not in ok]
-        if bad:
-            for f, x, u in bad:
-                rep.violation("W2", u.node, f, "write to DetailedPlacement::%s" % fld, "%s; allowed writers: %s" % (u.why, sorted(ok)),
-                              key="%s|writes DetailedPlacement::%s" % (f.short, fld))
-        else:
-            rep.holds("W2", "-", None, "DetailedPlacement::%s" % fld, "writers: %s" % sorted({f.short for f, _x, _u in ws}))
+        from .common import check_writers
+        check_writers(ctx, rep, "W2", q, ok, "DetailedPlacement::%s" % fld)
     # ---- G3 ----
     pl = prog.func1(CQ + "DetailedPlacement::place")
     s = eff.summary(pl)
